@@ -114,6 +114,13 @@ impl SampleTables {
         let cts_offsets: Vec<i32> = samples
             .iter()
             .map(|sample| {
+                #[cfg(feature = "verif")]
+                crate::verif::cast(
+                    "mp4.ctts.offset",
+                    sample.pts as i128 - sample.dts as i128,
+                    32,
+                    true,
+                );
                 let offset = (sample.pts as i64 - sample.dts as i64) as i32;
                 if offset != 0 {
                     has_bframes = true;
@@ -1348,6 +1355,13 @@ fn build_moov_box(
 ) -> Vec<u8> {
     // Calculate duration in media timescale, then convert to movie timescale (ms)
     let video_duration_media = video_tables.total_duration();
+    #[cfg(feature = "verif")]
+    crate::verif::cast(
+        "mp4.mvhd.duration",
+        (video_duration_media as i128) * (MOVIE_TIMESCALE as i128) / (MEDIA_TIMESCALE as i128),
+        32,
+        false,
+    );
     let video_duration_ms =
         (video_duration_media * MOVIE_TIMESCALE as u64 / MEDIA_TIMESCALE as u64) as u32;
 
@@ -1462,6 +1476,8 @@ fn build_mp4a_box(audio: &Mp4AudioTrack) -> Vec<u8> {
     payload.extend_from_slice(&16u16.to_be_bytes());
     payload.extend_from_slice(&0u16.to_be_bytes());
     payload.extend_from_slice(&0u16.to_be_bytes());
+    #[cfg(feature = "verif")]
+    crate::verif::cast("mp4.mp4a.samplerate", audio.sample_rate as i128, 16, false);
     let rate_fixed = audio.sample_rate << 16;
     payload.extend_from_slice(&rate_fixed.to_be_bytes());
     let esds = build_esds_box(audio);
@@ -1474,6 +1490,8 @@ fn build_esds_box(audio: &Mp4AudioTrack) -> Vec<u8> {
 
     let mut dec_specific = Vec::new();
     dec_specific.push(0x05);
+    #[cfg(feature = "verif")]
+    crate::verif::cast("mp4.esds.asc_len", asc.len() as i128, 8, false);
     dec_specific.push(asc.len() as u8);
     dec_specific.extend_from_slice(&asc);
 
@@ -1487,6 +1505,13 @@ fn build_esds_box(audio: &Mp4AudioTrack) -> Vec<u8> {
 
     let mut dec_config = Vec::new();
     dec_config.push(0x04);
+    #[cfg(feature = "verif")]
+    crate::verif::cast(
+        "mp4.esds.dec_config_len",
+        dec_config_payload.len() as i128,
+        8,
+        false,
+    );
     dec_config.push(dec_config_payload.len() as u8);
     dec_config.extend_from_slice(&dec_config_payload);
 
@@ -1500,6 +1525,8 @@ fn build_esds_box(audio: &Mp4AudioTrack) -> Vec<u8> {
 
     let mut es_desc = Vec::new();
     es_desc.push(0x03);
+    #[cfg(feature = "verif")]
+    crate::verif::cast("mp4.esds.es_len", es_payload.len() as i128, 8, false);
     es_desc.push(es_payload.len() as u8);
     es_desc.extend_from_slice(&es_payload);
 
@@ -1576,6 +1603,8 @@ fn build_opus_box(audio: &Mp4AudioTrack) -> Vec<u8> {
 ///   - CoupledCount (1 byte)
 ///   - ChannelMapping (OutputChannelCount bytes)
 fn build_dops_box(audio: &Mp4AudioTrack) -> Vec<u8> {
+    #[cfg(feature = "verif")]
+    crate::verif::cast("mp4.dOps.channels", audio.channels as i128, 8, false);
     let config = OpusConfig::default().with_channels(audio.channels as u8);
 
     let mut payload = Vec::new();
@@ -1830,7 +1859,11 @@ fn build_avc1_box(video: &Mp4VideoTrack, avc_config: &AvcConfig) -> Vec<u8> {
     payload.extend_from_slice(&0u32.to_be_bytes());
     payload.extend_from_slice(&0u32.to_be_bytes());
     // Width and height are 16-bit values in the visual sample entry
+    #[cfg(feature = "verif")]
+    crate::verif::cast("mp4.sample_entry.width", video.width as i128, 16, false);
     payload.extend_from_slice(&(video.width as u16).to_be_bytes());
+    #[cfg(feature = "verif")]
+    crate::verif::cast("mp4.sample_entry.height", video.height as i128, 16, false);
     payload.extend_from_slice(&(video.height as u16).to_be_bytes());
     payload.extend_from_slice(&0x0048_0000_u32.to_be_bytes());
     payload.extend_from_slice(&0x0048_0000_u32.to_be_bytes());
@@ -1859,9 +1892,13 @@ fn build_avcc_box(avc_config: &AvcConfig) -> Vec<u8> {
     payload.push(level_indication);
     payload.push(0xff);
     payload.push(0xe1);
+    #[cfg(feature = "verif")]
+    crate::verif::cast("mp4.avcC.sps_len", avc_config.sps.len() as i128, 16, false);
     payload.extend_from_slice(&(avc_config.sps.len() as u16).to_be_bytes());
     payload.extend_from_slice(&avc_config.sps);
     payload.push(1);
+    #[cfg(feature = "verif")]
+    crate::verif::cast("mp4.avcC.pps_len", avc_config.pps.len() as i128, 16, false);
     payload.extend_from_slice(&(avc_config.pps.len() as u16).to_be_bytes());
     payload.extend_from_slice(&avc_config.pps);
     build_box(b"avcC", &payload)
@@ -1893,7 +1930,11 @@ fn build_hvc1_box(video: &Mp4VideoTrack, hevc_config: &HevcConfig) -> Vec<u8> {
     payload.extend_from_slice(&0u32.to_be_bytes());
     payload.extend_from_slice(&0u32.to_be_bytes());
     // Width and height are 16-bit values in the visual sample entry
+    #[cfg(feature = "verif")]
+    crate::verif::cast("mp4.sample_entry.width", video.width as i128, 16, false);
     payload.extend_from_slice(&(video.width as u16).to_be_bytes());
+    #[cfg(feature = "verif")]
+    crate::verif::cast("mp4.sample_entry.height", video.height as i128, 16, false);
     payload.extend_from_slice(&(video.height as u16).to_be_bytes());
     // Horizontal/vertical resolution (72 dpi fixed point)
     payload.extend_from_slice(&0x0048_0000_u32.to_be_bytes());
@@ -1972,18 +2013,24 @@ fn build_hvcc_box(hevc_config: &HevcConfig) -> Vec<u8> {
     // array_completeness is the MSB (bit 7). nal_unit_type occupies bits 0..=5.
     payload.push(0x80 | 32); // array_completeness=1 + nal_unit_type=32 (VPS)
     payload.extend_from_slice(&1u16.to_be_bytes()); // numNalus = 1
+    #[cfg(feature = "verif")]
+    crate::verif::cast("mp4.hvcC.vps_len", hevc_config.vps.len() as i128, 16, false);
     payload.extend_from_slice(&(hevc_config.vps.len() as u16).to_be_bytes());
     payload.extend_from_slice(&hevc_config.vps);
 
     // SPS array
     payload.push(0x80 | 33); // array_completeness=1 + nal_unit_type=33 (SPS)
     payload.extend_from_slice(&1u16.to_be_bytes()); // numNalus = 1
+    #[cfg(feature = "verif")]
+    crate::verif::cast("mp4.hvcC.sps_len", hevc_config.sps.len() as i128, 16, false);
     payload.extend_from_slice(&(hevc_config.sps.len() as u16).to_be_bytes());
     payload.extend_from_slice(&hevc_config.sps);
 
     // PPS array
     payload.push(0x80 | 34); // array_completeness=1 + nal_unit_type=34 (PPS)
     payload.extend_from_slice(&1u16.to_be_bytes()); // numNalus = 1
+    #[cfg(feature = "verif")]
+    crate::verif::cast("mp4.hvcC.pps_len", hevc_config.pps.len() as i128, 16, false);
     payload.extend_from_slice(&(hevc_config.pps.len() as u16).to_be_bytes());
     payload.extend_from_slice(&hevc_config.pps);
 
@@ -2016,7 +2063,11 @@ fn build_av01_box(video: &Mp4VideoTrack, av1_config: &Av1Config) -> Vec<u8> {
     payload.extend_from_slice(&0u32.to_be_bytes());
     payload.extend_from_slice(&0u32.to_be_bytes());
     // Width and height are 16-bit values in the visual sample entry
+    #[cfg(feature = "verif")]
+    crate::verif::cast("mp4.sample_entry.width", video.width as i128, 16, false);
     payload.extend_from_slice(&(video.width as u16).to_be_bytes());
+    #[cfg(feature = "verif")]
+    crate::verif::cast("mp4.sample_entry.height", video.height as i128, 16, false);
     payload.extend_from_slice(&(video.height as u16).to_be_bytes());
     // Horizontal/vertical resolution (72 dpi fixed point)
     payload.extend_from_slice(&0x0048_0000_u32.to_be_bytes());
@@ -2104,7 +2155,11 @@ fn build_vp09_box(video: &Mp4VideoTrack, vp9_config: &Vp9Config) -> Vec<u8> {
     payload.extend_from_slice(&0u32.to_be_bytes());
     payload.extend_from_slice(&0u32.to_be_bytes());
     // Width and height are 16-bit values in the visual sample entry
+    #[cfg(feature = "verif")]
+    crate::verif::cast("mp4.sample_entry.width", video.width as i128, 16, false);
     payload.extend_from_slice(&(video.width as u16).to_be_bytes());
+    #[cfg(feature = "verif")]
+    crate::verif::cast("mp4.sample_entry.height", video.height as i128, 16, false);
     payload.extend_from_slice(&(video.height as u16).to_be_bytes());
     // Horizontal/vertical resolution (72 dpi fixed point)
     payload.extend_from_slice(&0x0048_0000_u32.to_be_bytes());
@@ -2198,6 +2253,8 @@ fn build_mdhd_box_with_timescale_and_duration(
     payload.extend_from_slice(&0u32.to_be_bytes()); // creation_time
     payload.extend_from_slice(&0u32.to_be_bytes()); // modification_time
     payload.extend_from_slice(&timescale.to_be_bytes());
+    #[cfg(feature = "verif")]
+    crate::verif::cast("mp4.mdhd.duration", duration as i128, 32, false);
     payload.extend_from_slice(&(duration as u32).to_be_bytes()); // duration
     payload.extend_from_slice(&encode_language_code(language.unwrap_or("und"))); // language
     payload.extend_from_slice(&0u16.to_be_bytes()); // pre_defined
@@ -2265,6 +2322,10 @@ fn build_tkhd_box_with_id(track_id: u32, volume: u16, width: u32, height: u32) -
     for value in matrix {
         payload.extend_from_slice(&value.to_be_bytes());
     }
+    #[cfg(feature = "verif")]
+    crate::verif::cast("mp4.tkhd.width", width as i128, 16, false);
+    #[cfg(feature = "verif")]
+    crate::verif::cast("mp4.tkhd.height", height as i128, 16, false);
     let width_fixed = width << 16;
     let height_fixed = height << 16;
     payload.extend_from_slice(&width_fixed.to_be_bytes());
@@ -2313,6 +2374,8 @@ fn build_mvhd_payload(duration_ms: u32) -> Vec<u8> {
 }
 
 fn build_box(typ: &[u8; 4], payload: &[u8]) -> Vec<u8> {
+    #[cfg(feature = "verif")]
+    crate::verif::cast("mp4.box.size", 8 + payload.len() as i128, 32, false);
     let length = (8 + payload.len()) as u32;
     let mut buffer = Vec::with_capacity(payload.len() + 8);
     buffer.extend_from_slice(&length.to_be_bytes());
@@ -2871,5 +2934,42 @@ mod tests {
         assert_eq!(box_data[12..16], [0, 0, 0, 1]); // entry_count = 1
         assert_eq!(box_data[16..20], [0, 0, 0, 1]); // sample_count = 1
         assert_eq!(box_data[20..24], [0, 0, 0x0b, 0xb8]); // sample_offset = 3000
+    }
+}
+
+#[cfg(feature = "verif")]
+impl<Writer> Mp4Writer<Writer> {
+    /// Canonical rendering of the writer's logical state (verification hook).
+    pub fn verif_snapshot(&self) -> String {
+        fn samples(v: &[SampleInfo]) -> String {
+            let mut s = String::new();
+            for x in v {
+                let head = &x.data[..x.data.len().min(32)];
+                let tail = &x.data[x.data.len().saturating_sub(32)..];
+                s.push_str(&format!(
+                    "({},{},{},{:x},{:x},{},{:?})",
+                    x.pts,
+                    x.dts,
+                    x.data.len(),
+                    crate::verif::fnv(head),
+                    crate::verif::fnv(tail),
+                    x.is_keyframe,
+                    x.duration
+                ));
+            }
+            s
+        }
+        format!(
+            "w{{v=[{}] vprev={:?} vlast={:?} vcfg={} a=[{}] aprev={:?} alast={:?} finalized={} bytes={}}}",
+            samples(&self.video_samples),
+            self.video_prev_pts,
+            self.video_last_delta,
+            self.video_config.is_some(),
+            samples(&self.audio_samples),
+            self.audio_prev_pts,
+            self.audio_last_delta,
+            self.finalized,
+            self.bytes_written
+        )
     }
 }
